@@ -11,6 +11,7 @@ import json
 import math
 import os
 import random
+import zlib
 
 from . import common, export, project as P
 
@@ -61,6 +62,7 @@ def sweep(db, dbname, proj, events, rng, thorough, rep, light=False):
             z = conv(qt, base, u, 0.0)
             # values at and next to the unit's own image of the base zero (affine offsets)
             vals[u] = sorted(set(VALUES + ([] if z == 0 else [z, z - 1.0, z + 1.0, -z])))
+        has_offset = any(len(vals[u_]) > len(VALUES) for u_ in units)
         pairs = [(u, w) for u in units for w in units if not light or u == w or u == base or w == base]
         cats_by_qt, dcat = {}, {}
         for ci_ in proj.get("cats", []):
@@ -160,6 +162,35 @@ def sweep(db, dbname, proj, events, rng, thorough, rep, light=False):
                             UnitDatabase.PopSingleton()
                     except Exception:  # noqa
                         same_exact = False
+            # the quantity's own conversion of plain lists / tuples (Quantity.Convert) and an Array holding a list / tuple of tuples
+            # ((min, max) pairs): the same amounts, and exactly the same ones when the target is the unit itself
+            cs_ = cats_by_qt.get(qt, ())
+            if cs_ and (u == w or has_offset or len(units) <= 12 or u == base or w == base or thorough or (zlib.crc32((u + '>' + w).encode()) % 5 == 0)):
+                c_ = qt if qt in cs_ else cs_[0]
+                try:
+                    from barril.units import Array, ObtainQuantity, UnitDatabase
+                    UnitDatabase.PushSingleton(db)
+                    try:
+                        q_ = ObtainQuantity(u, c_)
+                        pairs_ = [tuple(vals_u[i_:i_ + 2]) for i_ in range(0, len(vals_u) - 1, 2)]
+                        flat_ = [x_ for p_ in pairs_ for x_ in p_]
+                        want_ = ys[:len(flat_)]
+                        gots_ = [list(q_.Convert(list(vals_u), w)), list(q_.Convert(tuple(vals_u), w)),
+                                 [x_ for p_ in Array(c_, list(pairs_), u).GetValues(w) for x_ in p_],
+                                 [x_ for p_ in Array(c_, tuple(pairs_), u).GetValues(w) for x_ in p_]]
+                        wants_ = [ys, ys, want_, want_]
+                        for g_, w_ in zip(gots_, wants_):
+                            if len(g_) != len(w_):
+                                same_exact = False
+                            elif u == w:
+                                if any(not (a_ == b_) for a_, b_ in zip(g_, w_)):
+                                    same_exact = False
+                            elif any(ppt(abs(float(a_) - b_), max(abs(b_), zero_of[(u, w)])) > 1000 for a_, b_ in zip(g_, w_)):
+                                same_exact = False
+                    finally:
+                        UnitDatabase.PopSingleton()
+                except Exception:  # noqa
+                    same_exact = False
             events.append({"op": "Pair", "db": dbname, "qt": qt, "u": u, "v": w, "rt_ppt": worst_rt,
                            "same_exact": same_exact, "inversions": inversions, "spans": spans,
                            "path_ppt": worst_path, "spell_ppt": worst_spell, "pivots": len(pivots), "nvals": len(vals_u)})
